@@ -256,8 +256,10 @@ func (p *MetadataPersister) GetHeaderByLinkname(ctx context.Context, linkname st
 func (p *MetadataPersister) GetHeaderChildren(ctx context.Context, name string) ([]*config.Header, error) {
 	name = p.getSanitizedPath(ctx, name)
 
+	prefix := strings.TrimSuffix(name, "/") + "/" // Prevent double trailing slashes
+
 	headers, err := models.Headers(
-		qm.Where(models.HeaderColumns.Name+" like ?", strings.TrimSuffix(name, "/")+"/%"), // Prevent double trailing slashes
+		qm.Where("substr("+models.HeaderColumns.Name+", 1, length(?)) = ?", prefix, prefix), // Match the prefix literally; `like` would treat `%` and `_` in names as wildcards and ignore case
 		qm.Where(models.HeaderColumns.Deleted+" != 1"),
 	).All(ctx, p.sqlite.DB)
 	if err != nil {
@@ -320,9 +322,9 @@ func (p *MetadataPersister) GetHeaderDirectChildren(ctx context.Context, name st
 
 		query := fmt.Sprintf(
 			`select %v, %v, %v, %v, %v, %v, %v, %v, %v, %v, %v, %v, %v, %v, %v, %v, %v, %v, %v, %v, %v,
-    length(replace(%v, ?, '')) - length(replace(replace(%v, ?, ''), '/', '')) as depth
+    length(substr(%v, length(?) + 1)) - length(replace(substr(%v, length(?) + 1), '/', '')) as depth
 from %v
-where %v like ?
+where substr(%v, 1, length(?)) = ?
     and (
         depth = ?
         or (
@@ -369,7 +371,8 @@ where %v like ?
 				query+`limit ?`,
 				prefix,
 				prefix,
-				prefix+"%",
+				prefix,
+				prefix,
 				rootDepth,
 				rootDepth+1,
 				limit+1, // +1 to accomodate the parent directory if it exists
@@ -385,7 +388,8 @@ where %v like ?
 				query,
 				prefix,
 				prefix,
-				prefix+"%",
+				prefix,
+				prefix,
 				rootDepth,
 				rootDepth+1,
 			).Bind(ctx, p.sqlite.DB, &headers); err != nil {
